@@ -293,7 +293,7 @@ private:
 	std::string pickK(const std::string& name, long& k) {
 		long m = 2; auto it = maxPoints.find(name); if (it != maxPoints.end()) m = it->second;
 		if (rng.chance(1, 4)) { k = -1; return "-"; }
-		k = (long)rng.below((uint64_t)m + 1);
+		k = (long)std::min(rng.below((uint64_t)m + 1), rng.below((uint64_t)m + 2));	// biased towards the early steps
 		return std::to_string(k);
 	}
 
